@@ -203,6 +203,20 @@ def fmtLen (s : Text) : Option Nat :=
            | x :: _ => if x = ']' || x = '!' || x = '[' then some 1 else none
            | [] => none)
 
+/-- the tail of the regex: `\)` at offset `argsEnd` of `after`, then the format -/
+def epfsFinish (s after name : Text) (nl argsStart : Nat) (hasArgs : Bool) (argsEnd : Nat) : Option (Nat × Tok) :=
+  match after.drop argsEnd with
+  | ')' :: rest =>
+    match fmtLen rest with
+    | some fl =>
+      let total := 2 + nl + argsEnd + 1 + fl
+      let fmt := rest.take fl
+      some (total, { text := s.take total, isEnd := fmt = [']'], name := name,
+                     args := if hasArgs then (after.take argsEnd).drop argsStart else [],
+                     fmt := fmt })
+    | none => none
+  | _ => none
+
 /-- try to match the tag regex at the start of `s` (which begins with "%(") -/
 def matchEpfs (s : Text) : Option (Nat × Tok) :=
   let body := s.drop 2
@@ -212,31 +226,18 @@ def matchEpfs (s : Text) : Option (Nat × Tok) :=
     let name := body.take nl
     let after := body.drop nl
     let k := (after.takeWhile isCtl).length
-    let finish (argsStart : Nat) (hasArgs : Bool) (argsEnd : Nat) : Option (Nat × Tok) :=
-      -- `argsEnd` = offset in `after` where `\)` must be
-      match after.drop argsEnd with
-      | ')' :: rest =>
-        match fmtLen rest with
-        | some fl =>
-          let total := 2 + nl + argsEnd + 1 + fl
-          let fmt := rest.take fl
-          some (total, { text := s.take total, isEnd := fmt = [']'], name := name,
-                         args := if hasArgs then (after.take argsEnd).drop argsStart else [],
-                         fmt := fmt })
-        | none => none
-      | _ => none
-    if k = 0 then finish 0 false 0
+    if k = 0 then epfsFinish s after name nl 0 false 0
     else
       -- all blanks to `[\000- ]+`, arguments start at the first non-blank …
       let a1 := argsLen (after.length + 1) (after.drop k)
-      match finish k true (k + a1) with
+      match epfsFinish s after name nl k true (k + a1) with
       | some r => some r
       | none =>
         -- … or, when that fails because the arguments begin with a quote, the last
         -- blank is given back to the arguments
         if k ≥ 2 then
           let a2 := argsLen (after.length + 1) (after.drop (k - 1))
-          finish (k - 1) true (k - 1 + a2)
+          epfsFinish s after name nl (k - 1) true (k - 1 + a2)
         else none
 
 def scanEpfs : Text → Option (Text × Tok × Text)
